@@ -134,6 +134,17 @@ func (g *gen) upperName(prefix string) string {
 	return fmt.Sprintf("%s%d", prefix, g.nid)
 }
 
+// structName: one struct name in eight is long (25-60 characters), so that
+// type spellings such as map<NAME[]>[] exceed any column-width assumption.
+func (g *gen) structName() string {
+	n := g.upperName("S")
+	if g.pct(12) {
+		n += "_" + strings.Repeat("LONG_STRUCT_TYPE_NAME_", 3)[:20+g.r.Intn(38)]
+		n = strings.TrimRight(n, "_")
+	}
+	return n
+}
+
 func (g *gen) leafType() *Type {
 	if g.pct(g.cfg.PFileTypes) {
 		switch g.r.Intn(3) {
@@ -950,7 +961,7 @@ func Generate(seed int64, cfg *Config) *Program {
 	}
 	ns := g.r.Intn(cfg.MaxStructs + 1)
 	for i := 0; i < ns; i++ {
-		s := &Struct{Name: g.upperName("S")}
+		s := &Struct{Name: g.structName()}
 		used := map[string]bool{}
 		nf := 1 + g.r.Intn(3)
 		for j := 0; j < nf; j++ {
@@ -967,7 +978,7 @@ func Generate(seed int64, cfg *Config) *Program {
 		p.Structs = append(p.Structs, s)
 		// A narrower sibling with a subset of the fields.
 		if len(s.Fields) > 1 && g.pct(cfg.PNarrow) {
-			nsib := &Struct{Name: g.upperName("S")}
+			nsib := &Struct{Name: g.structName()}
 			for _, f := range s.Fields {
 				if g.pct(60) || len(nsib.Fields) == 0 {
 					nsib.Fields = append(nsib.Fields, f)
